@@ -158,7 +158,10 @@ func (k Keeper) AllocateTokensToStakers(ctx sdk.Context, operatorAddress sdk.Acc
 			remaining = remaining.Sub(rewardToSingleStaker)
 		}
 	}
-	feePool.CommunityPool = feePool.CommunityPool.Add(rewardToAllStakers...)
+	// only what could not be handed to a staker (truncation dust, or everything when there is
+	// no staker power) goes to the community pool; adding the whole staker share here booked it
+	// twice, once to the stakers and once to the community pool.
+	feePool.CommunityPool = feePool.CommunityPool.Add(remaining...)
 	logger.Info("allocate tokens to stakers successfully", "allocated amount is", rewardToAllStakers.String())
 }
 
